@@ -239,6 +239,8 @@ func runC17(e *Engine, r *Report) {
 	ruleCampaignPredicateUpper(e, r)
 	ruleDelayedRepack(e, r)
 	ruleResetProgress(e, r)
+	ruleConfigChangeClearsPending(e, r)
+	ruleSendQueueWorkerCleanup(e, r)
 }
 
 // c17Tables: node.tick advances every table clock on every path; gc reachable.
